@@ -168,6 +168,9 @@ where
     /// checks that the value is within the domain. If new domain constraint is added for a
     /// variable, it is updated to the domain store.
     pub fn process_domain(self, x: &LTerm<U, E>, domain: Rc<FiniteDomain>) -> SResult<U, E> {
+        // The term may have been bound since the caller walked it, e.g. by an earlier
+        // narrowing step of the same constraint: always look at its current value.
+        let x = &self.smap_ref().walk(x).clone();
         match x.as_ref() {
             // No value can be drawn from an empty domain.
             _ if domain.is_empty() => Err(()),
@@ -263,28 +266,36 @@ where
     /// constraints fail, `None` is returned. Otherwise the state is returned with an updated
     /// constraint store.
     pub fn run_constraints(mut self) -> SResult<U, E> {
-        let mut constraints = self
-            .cstore
-            .iter()
-            .cloned()
-            .collect::<Vec<Rc<dyn Constraint<U, E>>>>();
+        loop {
+            let bindings = self.smap_ref().len();
+            let mut constraints = self
+                .cstore
+                .iter()
+                .cloned()
+                .collect::<Vec<Rc<dyn Constraint<U, E>>>>();
 
-        // Each constraint is first removed from the store and then run against the state.
-        // If the constraint does not want to be removed from the store, it adds itself
-        // back when it is run.
-        for constraint in constraints.drain(..) {
-            self = match self.take_constraint(&constraint) {
-                (unconstrained_state, Some(constraint)) => {
-                    match constraint.run(unconstrained_state) {
-                        Ok(constrained_state) => constrained_state,
-                        Err(error) => return Err(error),
+            // Each constraint is first removed from the store and then run against the state.
+            // If the constraint does not want to be removed from the store, it adds itself
+            // back when it is run.
+            for constraint in constraints.drain(..) {
+                self = match self.take_constraint(&constraint) {
+                    (unconstrained_state, Some(constraint)) => {
+                        match constraint.run(unconstrained_state) {
+                            Ok(constrained_state) => constrained_state,
+                            Err(error) => return Err(error),
+                        }
                     }
-                }
-                (constrained_state, None) => constrained_state, /* Constraint has removed itself. */
-            };
-        }
+                    (constrained_state, None) => constrained_state, /* Constraint has removed itself. */
+                };
+            }
 
-        Ok(self)
+            // A constraint that bound one of its own operands while it was running was not in
+            // the store when that binding was propagated: run the store again until the
+            // substitution no longer grows.
+            if self.smap_ref().len() == bindings {
+                return Ok(self);
+            }
+        }
     }
 
     /// Processes extension for disequality constraints.
